@@ -75,13 +75,21 @@ def run(tier, seed):
         return ck.finish(RULE, TRUSTED, ASSUME)
     rng = ck.rng
     thorough = tier == 'thorough'
-    env = apel.PluginEnv(allow=True).install()
+    # fixture parser modules that raise / return nothing / fail while being imported: PELs that use them are decodable (error
+    # note + dump) and sit in BOTH directories; whatever such a module does must not leak into the output for the others
+    env = apel.PluginEnv(allow=True, ud={'x2222': ('raises', 'boom'), 'x3333': ('none',), 'x8888': ('import_raises', 'load failure'), 'x1111': ('echo',)}).install()
     paths = []
     try:
         reqs, meta = [env.tokens()], []
         for _ in range(60 if thorough else 14):
             d = clirun.keep_decodable(env, clirun.gen_wf_dir(rng, rng.choice([0, 1, 3, 6])))
             files = [(n, apel.enc_pel(p)) for n, p in d]
+            # sorts first / in the middle: sections owned by fixture modules that raise, return nothing or cannot be imported
+            trouble = pelbuild.pel([pelbuild.UH(), pelbuild.SRC(), pelbuild.UD(b'abc', sub=5, comp=0x2222), pelbuild.UD(b'abcd', sub=1, comp=0x3333),
+                                    pelbuild.UD(b'z', sub=1, comp=0x8888), pelbuild.UD(b'\x01\x02', sub=5, comp=0x1111)],
+                                   creator=b'x', eid=0x0A0A0000 + len(meta))
+            if rng.random() < 0.7:
+                files.append((rng.choice(['!first_trouble', 'mmm_trouble', '0000_trouble']), trouble))
             sample = files[0][1] if files else pelbuild.pel([pelbuild.UH()])
             junk = junk_files(rng, sample)
             clean = clirun.make_dir(files)
